@@ -244,6 +244,8 @@ func newFieldRun(e *sym.Ctx) *fieldRun {
 // ---------------------------------------------------------------------------------------------
 
 type instance struct {
+	Base   string // name of the unrestricted instance
+	K      int    // query rounds kept (0 = all)
 	Name   string
 	Dir    string
 	Proof  variables.ProofWithPublicInputs
@@ -274,13 +276,14 @@ func loadInstance(repo, name string) *instance {
 	pr, raw := variables.DeserializeProofWithPublicInputs(types.ReadProofWithPublicInputs(p[0]))
 	vd := variables.DeserializeVerifierOnlyCircuitData(types.ReadVerifierOnlyCircuitData(p[1]))
 	c := types.ReadCommonCircuitData(p[2])
-	return &instance{Name: name, Dir: p[0], Proof: pr, RawPis: raw, VD: vd, Common: c}
+	return &instance{Base: name, Name: name, Dir: p[0], Proof: pr, RawPis: raw, VD: vd, Common: c}
 }
 
 // restrict returns the instance cut to its first k query rounds (configuration adjusted).
 func (in *instance) restrict(k int) *instance {
 	out := *in
 	out.Name = fmt.Sprintf("%s[k=%d]", in.Name, k)
+	out.K = k
 	out.Proof.Proof.OpeningProof.QueryRoundProofs = in.Proof.Proof.OpeningProof.QueryRoundProofs[:k]
 	out.Common.Config.FriConfig.NumQueryRounds = uint64(k)
 	out.Common.FriParams.Config.NumQueryRounds = uint64(k)
